@@ -23,6 +23,8 @@ import (
 
 	jsondec "github.com/vimeo/dials/decoders/json"
 	"github.com/vimeo/dials/sources/file"
+	"github.com/vimeo/dials/sourcewrap"
+	"github.com/vimeo/dials/transform"
 )
 
 // ---- C17: the watched config file (DESIGN §4 C17, §2.5) ----
@@ -34,7 +36,29 @@ type FileSpec struct {
 	PollMS     int    `json:"poll_ms,omitempty"`
 	Reload     bool   `json:"reload,omitempty"`
 	RaceConfig bool   `json:"race_config,omitempty"` // Config runs as a task, raced by the writer
+	Picky      bool   `json:"picky,omitempty"`       // the file source sits behind a transforming source whose mangler refuses some decodable values ("broken" contents may be of that kind)
 }
+
+// pickyMangler passes every field through; its reverse step refuses strings
+// that begin with "untranslatable" (as the alias mangler refuses a document
+// that sets both the old and the new name of a field).
+type pickyMangler struct{}
+
+var errPicky = errors.New("harness: untranslatable value")
+
+func (pickyMangler) Mangle(sf reflect.StructField) ([]reflect.StructField, error) {
+	return []reflect.StructField{sf}, nil
+}
+
+func (pickyMangler) Unmangle(sf reflect.StructField, vs []transform.FieldValueTuple) (reflect.Value, error) {
+	v := vs[0].Value
+	if v.Kind() == reflect.Ptr && !v.IsNil() && v.Elem().Kind() == reflect.String && strings.HasPrefix(v.Elem().String(), "untranslatable") {
+		return reflect.Value{}, fmt.Errorf("%w %q", errPicky, v.Elem().String())
+	}
+	return v, nil
+}
+
+func (pickyMangler) ShouldRecurse(reflect.StructField) bool { return false }
 
 type fileState struct {
 	cur        *Part // the part whose rendering was written last (nil: unknown)
@@ -284,6 +308,7 @@ func genFile(seed uint64, faulty bool) *Scenario {
 	}
 	fs.Reload = g.pct(20)
 	fs.RaceConfig = g.pct(20)
+	fs.Picky = g.pct(15)
 	if fs.Layout == "plain" && g.pct(35) {
 		fs.Format = "yaml"
 	}
@@ -585,6 +610,9 @@ func (r *Run) setupFile(st *srcState) {
 	must(err)
 	f.src = src
 	st.src = src
+	if fs.Picky {
+		st.src = sourcewrap.NewTransformingSource(src, pickyMangler{})
+	}
 }
 
 func must(err error) {
@@ -609,6 +637,14 @@ func (r *Run) cleanupFile() {
 
 func (r *Run) contentFor(op *Op, st *srcState) []byte {
 	if op.Str == "malformed" {
+		if r.file.spec.Picky && op.Part.ID%2 == 0 {
+			// decodes, but the wrapper in front of the file source cannot translate it back
+			r.probe("file-content-refused-by-the-wrapper")
+			if r.file.spec.Format == "yaml" {
+				return []byte(fmt.Sprintf("s: \"untranslatable-%d\"\n", op.Part.ID))
+			}
+			return []byte(fmt.Sprintf(`{"S": "untranslatable-%d"}`, op.Part.ID))
+		}
 		if r.file.spec.Format == "yaml" {
 			return malformedYAML(op.Part.ID)
 		}
@@ -956,6 +992,10 @@ func (r *Run) oracleC17() {
 		for _, cb := range r.cbs {
 			var de *file.DecoderErr
 			if cb.Kind == "err" && errors.As(cb.Err, &de) && cb.Enter >= lastGood {
+				found = true
+			}
+			// (a content the wrapper in front of the source refuses: that error)
+			if cb.Kind == "err" && errors.Is(cb.Err, errPicky) && cb.Enter >= lastGood {
 				found = true
 			}
 			// (under injected I/O faults the error the user is told about the
